@@ -435,3 +435,33 @@ def rule_format_templates(ctx, typer, funcs, rule):
                 n += 1
                 ctx.inst(rule, f, node, "constant format template")
     return n
+
+
+def reaching_def_nodes(cfgnode, name, limit=600):
+    """assignment CFG nodes (`name = ...`) whose binding reaches the node; None if another binding form or the entry
+    (unbound / parameter) can reach it as well"""
+    found, seen = [], set()
+    stack = [p for p, lab in cfgnode.pred if lab != "exc"]
+    steps = 0
+    while stack:
+        n = stack.pop()
+        if n.id in seen:
+            continue
+        seen.add(n.id)
+        steps += 1
+        if steps > limit:
+            return None
+        a = n.ast
+        if n.kind == "stmt" and isinstance(a, ast.Assign) and len(a.targets) == 1 and isinstance(a.targets[0], ast.Name) \
+                and a.targets[0].id == name:
+            found.append(n)
+            continue
+        if n.kind in ("stmt", "fornext", "with") and a is not None and not isinstance(a, (ast.If, ast.While, ast.Try)):
+            tgt = a.target if isinstance(a, ast.For) else a
+            if any(isinstance(x, ast.Name) and x.id == name and isinstance(x.ctx, ast.Store) for x in ast.walk(tgt)):
+                return None
+        preds = [p for p, lab in n.pred if lab != "exc"]
+        if not preds:
+            return None
+        stack.extend(preds)
+    return found
